@@ -411,6 +411,8 @@ class Interp:
         cls_expr = e.func if isinstance(e, ast.Call) else e
         names = self.a.lattice.handler_classes(self.fn, cls_expr, self.a.resolve_handler_attr)
         if names and len(names) == 1:
+            if self.a.lattice.ancestry(names[0]) is not None and getattr(self.a, "precise_raise_tokens", False):
+                return [names[0]]  # the raised class itself is the token (its ancestry is known to the lattice)
             tok = self.a.lattice.token_for(names[0], uni)
             if tok is not None:
                 return [tok]
